@@ -62,7 +62,7 @@ def unguarded_delete_of_written_consumer(reqs):
 
 def run_worker(ctx):
     engc.run_cases(ctx, cgen.contention_case, oracle,
-                   examples=ctx.pick(8, 70))
+                   examples=ctx.pick(8, 50))
 
 
 def replay(ctx, data):
